@@ -154,7 +154,13 @@ def lit_from_text(text):
         v = v / 100
     return v
 
-def gen_literal(rng, max_digits=12, max_exp=30, allow_neg=True, allow_pct=True, integer=False):
+def gen_literal(rng, max_digits=12, max_exp=30, allow_neg=True, allow_pct=True, integer=False, boundary=0.04):
+    if boundary and max_digits >= 6 and rng.random() < boundary:
+        from . import boundary as B
+        text = B.literal(rng, allow_neg=allow_neg, allow_frac=not integer)
+        if allow_pct and not integer and rng.random() < 0.08:
+            text += "%"
+        return ("lit", text, lit_from_text(text))
     form = rng.random()
     nd = 1 if rng.random() < 0.35 else rng.randint(1, max_digits)
     if rng.random() < 0.05:
@@ -190,6 +196,12 @@ def gen_tree(rng, depth, max_digits=12, max_exp=30, ops="+-*/^", zero_bias=0.08)
             return ("lit", rng.choice(["0", "0.0", "00", "0e5", "-0", "0%"]), Fraction(0))
         return gen_literal(rng, max_digits, max_exp)
     op = rng.choice(ops)
+    if max_digits >= 6 and rng.random() < 0.015 and "*" in ops:
+        # two integers whose product straddles a machine-word boundary (2^63, 2^64, 2^127, 2^128)
+        from . import boundary as B
+        a, b = B.big_pair(rng)
+        sa, sb = rng.choice([1, 1, -1]), rng.choice([1, 1, -1])
+        return ("bin", "*", ("lit", str(sa * a), Fraction(sa * a)), ("lit", str(sb * b), Fraction(sb * b)))
     left = gen_tree(rng, depth - 1, max_digits, max_exp, ops, zero_bias)
     if op == "^":
         right = gen_exponent(rng, depth - 1)
